@@ -1,4 +1,5 @@
 import Eliot.Properties.C01View
+import Eliot.Properties.C01Flat
 #print axioms Sys.Emit.execS_emits
 #print axioms Sys.Emit.execB_emits
 #print axioms Sys.Emit.execB_top
@@ -22,3 +23,4 @@ import Eliot.Properties.C01View
 #print axioms Sys.C01.handle_same_as_with
 #print axioms Sys.C01.tagView_faithful
 #print axioms Sys.C01.exStage_ok
+#print axioms Sys.C01.roundtrip_flat
